@@ -73,6 +73,16 @@ def oracle_udp(case, line):
     bad = []
     pending = None
     for i, (op, seg) in enumerate(zip(ops, segs)):
+        silent = op.endswith("!")
+        op = op.rstrip("!")
+        if silent:
+            if seg not in ("timeout", "-"):
+                bad.append((None, "UDP case: silent tracker at op %d (%s): %s" % (i, op, seg[:80])))
+            if op in ("ss", "ST"):
+                pending = 2
+            elif op == "sc":
+                pending = 1
+            continue
         if op in ("ss", "ST"):
             pending = 2
         elif op == "sc":
@@ -85,7 +95,7 @@ def oracle_udp(case, line):
         if len(f) != 4 or not all(x.isdigit() for x in f):
             bad.append((None, "UDP case: op %d (%s): %s" % (i, op, seg[:120])))
             continue
-        want = BEP15[op] if op != "mr" else (pending if pending is not None else 0)
+        want = BEP15[op] if op in BEP15 and op != "mr" else (pending if pending is not None else 0)
         if int(f[0]) != want:
             bad.append((None, "UDP announce packet for a '%s' event carries BEP-15 event code %s (%s) at op %d (%s)" % (
                 BEP15_NAME[want], f[0], BEP15_NAME.get(int(f[0]), "?"), i, op)))
@@ -255,6 +265,7 @@ def run(rep, tier, seed, replay):
     rep.cov.update(obligations=coq["obligations"], discharged=coq["discharged"], checker_cmd=coq["checker_cmd"],
                    theorems=coq["theorems"], axioms_per_theorem=coq["axioms"],
                    trusted_base=ltv.std_trusted_base(coq, [
+                       "UDP wire cases: real TrackerUdp + UdpRouter on loopback; the tracker thread's clock is stepped by the harness to reach UdpRouter's retransmission timeouts",
                        "modelled not verified: tracker workers (HTTP/UDP/DHT) are the environment; the harness worker applies the same TrackerState updates (set_*_interval through the real clamping setters, requesting flags) as TrackerHttp/TrackerUdp",
                        "modelled not verified: Scheduler reduced to the single m_task_timeout entry; tracker thread is quiescent between two main-thread events (the harness waits for it)",
                        "python oracle props/c13.py (strict reading of the C13 statement) on implementation outputs"]))
@@ -329,5 +340,5 @@ def run(rep, tier, seed, replay):
                    samples=samples, input_distribution=stats, mismatches=mism,
                    exhaustive=(tier != "quick"))
     rep.assumptions += ["tracker thread handles Manager::send_event callbacks before the next main-thread event (harness quiesces after every op)",
-                        "no scrape requests; no tracker insertion after start; counters below 2^32; interval values within int64",
+                        "no scrape requests and no DHT-type tracker (not modelled); counters below 2^32; interval values within int64",
                         "send_stop_event is always followed by disable (the only use in src/torrent/download.cc)"]
